@@ -483,6 +483,7 @@ func c16One(r *Run, x *c16Ctx, c c16Cell, kind string) {
 		}
 		restore()
 	}
+	historyPrelude(x.n)
 	flagsNow := int64(slog.GetFlags())
 
 	e := c16NewLogger(&c, x.n)
